@@ -124,3 +124,390 @@ Proof.
     + intros i Hi1 Hi2. apply in_map_iff in Hi2. destruct Hi2 as (y & Hy & Hyin). apply pull_sub in Hyin.
       destruct Hyin as [_ Hn]. apply Hn. apply in_app_iff. right. rewrite Hy. exact Hi1.
 Qed.
+
+(* ---- what write_chain leaves in the dict and in errors ---- *)
+Lemma key_eqb_refl k : key_eqb k k = true.
+Proof. now apply key_eqb_eq. Qed.
+
+Lemma qkey_neq p k p' k' : (k <> k' \/ p <> p') -> qkey_eqb (mkQ p k) (mkQ p' k') = false.
+Proof.
+  intros H. destruct (qkey_eqb (mkQ p k) (mkQ p' k')) eqn:E; [|reflexivity].
+  apply qkey_eqb_eq in E. injection E as -> ->. destruct H; congruence.
+Qed.
+
+Lemma write_chain_all ranks p k st : cs_all (write_chain ranks p k st) = cs_all st.
+Proof.
+  revert p st. induction ranks as [|g r IH]; intros p st; simpl; [reflexivity|].
+  destruct g as [|c [|c2 t]]; simpl; try reflexivity. now rewrite IH.
+Qed.
+
+(* keys not written by this chain keep their entries *)
+Lemma write_chain_other ranks : forall p k st p' k',
+  (k <> k' \/ ~ In p' (parents (chain_entries ranks p))) ->
+  assoc_q (mkQ p' k') (cs_dict (write_chain ranks p k st)) = assoc_q (mkQ p' k') (cs_dict st) /\
+  assoc_q (mkQ p' k') (cs_err (write_chain ranks p k st)) = assoc_q (mkQ p' k') (cs_err st).
+Proof.
+  induction ranks as [|g r IH]; intros p k st p' k' H; simpl; [auto|].
+  destruct g as [|c [|c2 t]].
+  - simpl. split; [reflexivity|]. rewrite qkey_neq; [reflexivity|]. destruct H as [H|H]; [now left|right; intros ->; apply H; simpl; now left].
+  - assert (H' : k <> k' \/ ~ In p' (parents (chain_entries r (Some (cid c))))).
+    { destruct H as [H|H]; [now left|right; intros Hin; apply H; simpl; now right]. }
+    destruct (IH (Some (m_id (c_m c))) k (mkC (cs_ms st) ((mkQ p k, m_id (c_m c)) :: cs_dict st) (cs_err st) (cs_all st)) p' k' H') as [H1 H2].
+    rewrite H1, H2. simpl. split; [|reflexivity].
+    rewrite qkey_neq; [reflexivity|]. destruct H as [H|H]; [now left|right; intros ->; apply H; simpl; now left].
+  - simpl. split; [reflexivity|]. rewrite qkey_neq; [reflexivity|]. destruct H as [H|H]; [now left|right; intros ->; apply H; simpl; now left].
+Qed.
+
+Definition push_dict (st : cstate) (q : qkey) (h : nat) : cstate :=
+  mkC (cs_ms st) ((q, h) :: cs_dict st) (cs_err st) (cs_all st).
+
+Lemma write_chain_single c r p k st :
+  write_chain ([c] :: r) p k st = write_chain r (Some (cid c)) k (push_dict st (mkQ p k) (cid c)).
+Proof. reflexivity. Qed.
+
+(* the entries of the chain are found afterwards *)
+Lemma write_chain_in ranks : forall p k st p' o,
+  NoDup (parents (chain_entries ranks p)) -> In (p', o) (chain_entries ranks p) ->
+  match o with
+  | ORun h => assoc_q (mkQ p' k) (cs_dict (write_chain ranks p k st)) = Some h
+  | OAmbig g => assoc_q (mkQ p' k) (cs_err (write_chain ranks p k st)) = Some g /\
+                assoc_q (mkQ p' k) (cs_dict (write_chain ranks p k st)) = assoc_q (mkQ p' k) (cs_dict st)
+  | _ => True
+  end.
+Proof.
+  induction ranks as [|g r IH]; intros p k st p' o Hnd Hin; [destruct Hin|].
+  destruct g as [|c [|c2 t]].
+  - simpl in Hin. destruct Hin as [E|[]]. injection E as <- <-. simpl. rewrite qkey_eqb_refl. auto.
+  - rewrite write_chain_single. cbn [chain_entries parents map fst] in Hnd, Hin.
+    inversion Hnd as [|? ? Hnotin Hnd']; subst.
+    destruct Hin as [E|Hin].
+    + injection E as <- <-.
+      destruct (write_chain_other r (Some (cid c)) k (push_dict st (mkQ p k) (cid c)) p k (or_intror Hnotin)) as [H1 _].
+      rewrite H1. unfold push_dict. simpl. now rewrite qkey_eqb_refl.
+    + specialize (IH (Some (cid c)) k (push_dict st (mkQ p k) (cid c)) p' o Hnd' Hin). destruct o; auto.
+      destruct IH as [H1 H2]. split; [exact H1|]. rewrite H2. unfold push_dict. simpl.
+      rewrite qkey_neq; [reflexivity|]. right. intros ->. apply Hnotin. apply in_map_iff. exists (p', OAmbig ms). auto.
+  - simpl in Hin. destruct Hin as [E|[]]. injection E as <- <-. simpl. rewrite qkey_eqb_refl. auto.
+Qed.
+
+(* every entry found after write_chain was there before or is one of the chain's *)
+Lemma write_chain_dict_src ranks : forall p k st q h,
+  assoc_q q (cs_dict (write_chain ranks p k st)) = Some h ->
+  assoc_q q (cs_dict st) = Some h \/ exists p', q = mkQ p' k /\ In (p', ORun h) (chain_entries ranks p).
+Proof.
+  induction ranks as [|g r IH]; intros p k st q h H; [left; exact H|].
+  destruct g as [|c [|c2 t]].
+  - simpl in H. now left.
+  - rewrite write_chain_single in H. destruct (IH _ _ _ _ _ H) as [H1|(p' & -> & Hin)].
+    + unfold push_dict in H1. simpl in H1. destruct (qkey_eqb (mkQ p k) q) eqn:E.
+      * apply qkey_eqb_eq in E. subst q. injection H1 as <-. right. exists p. split; [reflexivity|]. simpl. now left.
+      * now left.
+    + right. exists p'. split; [reflexivity|]. simpl. now right.
+  - simpl in H. now left.
+Qed.
+
+Lemma write_chain_err_src ranks : forall p k st q g,
+  assoc_q q (cs_err (write_chain ranks p k st)) = Some g ->
+  assoc_q q (cs_err st) = Some g \/ exists p', q = mkQ p' k /\ In (p', OAmbig g) (chain_entries ranks p).
+Proof.
+  induction ranks as [|g0 r IH]; intros p k st q g H; [left; exact H|].
+  destruct g0 as [|c [|c2 t]].
+  - simpl in H. destruct (qkey_eqb (mkQ p k) q) eqn:E; [|now left].
+    apply qkey_eqb_eq in E. subst q. injection H as <-. right. exists p. split; [reflexivity|]. simpl. now left.
+  - rewrite write_chain_single in H. destruct (IH _ _ _ _ _ H) as [H1|(p' & -> & Hin)].
+    + left. exact H1.
+    + right. exists p'. split; [reflexivity|]. simpl. now right.
+  - simpl in H. destruct (qkey_eqb (mkQ p k) q) eqn:E; [|now left].
+    apply qkey_eqb_eq in E. subst q. injection H as <-. right. exists p. split; [reflexivity|]. simpl. now left.
+Qed.
+
+Lemma rank_outcome_cases g : (exists c, g = [c] /\ rank_outcome g = ORun (cid c)) \/ rank_outcome g = OAmbig (ids g).
+Proof. destruct g as [|c [|c2 t]]; simpl; eauto. Qed.
+
+Lemma chain_entries_head g rest : exists tl, chain_entries (g :: rest) None = (None, rank_outcome g) :: tl /\
+  (forall c o, In (Some c, o) tl -> exists c1, g = [c1]).
+Proof.
+  destruct g as [|c [|c2 t]]; simpl.
+  - exists []. split; [reflexivity|]. intros c o [].
+  - exists (chain_entries rest (Some (cid c))). split; [reflexivity|]. eauto.
+  - exists []. split; [reflexivity|]. intros c0 o [].
+Qed.
+
+Lemma chain_next_shape ranks c o : chain_next ranks c = Some o -> (exists h, o = ORun h) \/ (exists g, o = OAmbig g).
+Proof.
+  induction ranks as [|g rest IH]; simpl; [discriminate|].
+  destruct g as [|x [|x2 t]]; try discriminate.
+  destruct (Nat.eqb (m_id (c_m x)) c); [|exact IH].
+  destruct rest as [|g2 r2]; [discriminate|]. intros H; injection H as <-.
+  destruct (rank_outcome_cases g2) as [(c' & Hg & Hr) | Hr]; rewrite Hr; eauto.
+Qed.
+
+Lemma existsb_groups_memb (ranks : list (list cand)) c :
+  existsb (fun gr => existsb (fun x => Nat.eqb (m_id (c_m x)) c) gr) ranks = memb c (ids (concat ranks)).
+Proof.
+  induction ranks as [|g r IH]; simpl; [reflexivity|]. rewrite IH. unfold ids. rewrite map_app. unfold memb.
+  rewrite existsb_app. f_equal. induction g as [|x g IHg]; simpl; [reflexivity|]. rewrite IHg.
+  f_equal. apply Nat.eqb_sym.
+Qed.
+
+Section Full.
+  Variable sub : nat -> nat -> bool.
+  Variable hasm : nat -> nat -> bool.
+  Variable chk : nat -> nat -> bool.
+  Variable sub_fresh : nat -> bool.
+  Variable ms : list meth.
+  Hypothesis ms_nodup : NoDup (map m_id ms).
+
+  Notation mro := (mro sub hasm chk sub_fresh).
+  Notation lookup := (lookup sub hasm chk sub_fresh).
+  Notation lookup_next := (lookup_next sub hasm chk sub_fresh).
+  Notation candidates := (candidates sub hasm chk sub_fresh).
+  Notation fresh := (fresh sub hasm chk sub_fresh ms).
+  Notation getitem := (getitem sub hasm chk sub_fresh).
+  Notation get_plain := (get_plain sub hasm chk sub_fresh).
+  Notation miss_plain := (miss_plain sub hasm chk sub_fresh).
+
+  Lemma mro_nodup k ranks : mro ms k = Ok ranks -> NoDup (ids (concat ranks)).
+  Proof.
+    unfold Resolve.mro. destruct (candidates ms k) as [cs|] eqn:Hc; cbn [rbind]; [|discriminate].
+    intros H. assert (E : ranks = pull (S (length (sort_desc cs))) (sort_desc cs) []) by congruence.
+    rewrite E. apply (pull_nodup (S (length (sort_desc cs)))).
+    eapply Permutation_NoDup; [apply Permutation_map; apply sort_desc_perm|].
+    pose proof (cands_NoDup _ _ _ _ _ _ _ ms_nodup Hc) as Hcs.
+    destruct (candidates_inv _ _ _ _ _ _ _ Hc) as (lv & _ & ->).
+    clear -ms_nodup. induction ms as [|m r IH]; simpl; [constructor|].
+    inversion ms_nodup; subst. unfold cand_of at 1.
+    destruct (arity_ok m _ _); [|apply IH; assumption].
+    destruct (spec_of lv m); [|apply IH; assumption].
+    simpl. constructor; [|apply IH; assumption].
+    intros Hin. apply H1. apply in_map_iff in Hin. destruct Hin as (c & Hc & Hin).
+    apply omap_filter_In in Hin. destruct Hin as (m' & Hm' & Hcm).
+    unfold cand_of in Hcm. destruct (arity_ok m' _ _); [|discriminate]. destruct (spec_of lv m'); [|discriminate].
+    injection Hcm as <-. unfold cid in Hc. simpl in Hc. rewrite <- Hc. now apply in_map.
+  Qed.
+
+  (* what each chain entry means for a fresh table *)
+  Lemma entry_fresh k ranks p o :
+    mro ms k = Ok ranks -> In (p, o) (chain_entries ranks None) -> fresh (mkQ p k) = o.
+  Proof.
+    intros Hm Hin. pose proof (mro_nodup _ _ Hm) as Hnd.
+    destruct ranks as [|g rest]; [destruct Hin|].
+    destruct (chain_entries_head g rest) as (tl & Htl & Hsingle). rewrite Htl in Hin.
+    unfold Cache.fresh. simpl q_caller. simpl q_key.
+    assert (Hpar : NoDup (parents (chain_entries (g :: rest) None))) by (apply chain_entries_nodup; [exact Hnd|discriminate]).
+    rewrite Htl in Hpar. simpl in Hpar. inversion Hpar as [|? ? Hnone Hpar']; subst.
+    destruct Hin as [E|Hin].
+    - injection E as <- <-. unfold Resolve.lookup. rewrite Hm. reflexivity.
+    - destruct p as [c|]; [|exfalso; apply Hnone; apply in_map_iff; exists (None, o); auto].
+      destruct (Hsingle _ _ Hin) as [c1 ->].
+      assert (Hin' : In (Some c, o) (chain_entries ([c1] :: rest) None)) by (rewrite Htl; now right).
+      pose proof (entries_chain_next _ None c o Hnd ltac:(discriminate) Hin') as Hcn.
+      unfold Resolve.lookup_next. rewrite Hm. cbn [rank_outcome].
+      assert (Hmem : existsb (fun gr => existsb (fun x => Nat.eqb (m_id (c_m x)) c) gr) ([c1] :: rest) = true).
+      { rewrite existsb_groups_memb. apply memb_In.
+        assert (Hq : In (Some c) (parents (chain_entries ([c1] :: rest) None))) by (apply in_map_iff; exists (Some c, o); auto).
+        destruct (chain_entries_parents _ _ _ Hq) as [E|(c' & g' & E & Hg & ->)]; [discriminate|].
+        injection E as ->. apply (in_ranks_ids _ [c'] c'); [exact Hg|now left]. }
+      rewrite Hmem. cbn [negb]. rewrite Hcn. reflexivity.
+  Qed.
+
+  Definition FInv (st : cstate) : Prop :=
+    cs_ms st = ms /\
+    (forall q h, assoc_q q (cs_dict st) = Some h -> fresh q = ORun h) /\
+    (forall q g, assoc_q q (cs_err st) = Some g -> fresh q = OAmbig g) /\
+    (forall k cands, assoc_k k (cs_all st) = Some cands -> exists ranks, mro ms k = Ok ranks /\ cands = ids (concat ranks)) /\
+    (forall k h, assoc_q (mkQ None k) (cs_dict st) = Some h ->
+       exists ranks, mro ms k = Ok ranks /\ assoc_k k (cs_all st) = Some (ids (concat ranks)) /\
+         forall c o, chain_next ranks c = Some o ->
+           match o with
+           | ORun h' => assoc_q (mkQ (Some c) k) (cs_dict st) = Some h'
+           | OAmbig g => assoc_q (mkQ (Some c) k) (cs_err st) = Some g
+           | _ => True
+           end).
+
+  Lemma FInv_init : FInv (cinit ms).
+  Proof. unfold FInv, cinit. simpl. repeat split; intros; discriminate. Qed.
+
+  Lemma assoc_k_cons {X} k k' (x : X) l : assoc_k k' ((k, x) :: l) = if key_eqb k k' then Some x else assoc_k k' l.
+  Proof. reflexivity. Qed.
+
+  Lemma key_neq k k' : k <> k' -> key_eqb k k' = false.
+  Proof. intros H. destruct (key_eqb k k') eqn:E; [|reflexivity]. apply key_eqb_eq in E. contradiction. Qed.
+
+  Lemma fresh_plain k : fresh (mkQ None k) = lookup ms k.
+  Proof. reflexivity. Qed.
+
+  (* a plain miss: the new state satisfies the invariant and the answer is the fresh one *)
+  Lemma miss_plain_full st k st' out r :
+    FInv st -> assoc_q (mkQ None k) (cs_dict st) = None ->
+    miss_plain st k = (st', out, r) -> FInv st' /\ out = lookup ms k.
+  Proof.
+    intros (Hms & HD & HE & HA & HC) Hmiss H. unfold Cache.miss_plain in H. rewrite Hms in H.
+    destruct (mro ms k) as [ranks|e] eqn:Hm.
+    2:{ injection H as <- <- _. split; [repeat split; assumption|]. unfold Resolve.lookup. now rewrite Hm. }
+    set (st1 := mkC ms (cs_dict st) (cs_err st) ((k, ids (concat ranks)) :: cs_all st)) in H.
+    assert (HA1 : forall k' cands, assoc_k k' (cs_all st1) = Some cands -> exists ranks', mro ms k' = Ok ranks' /\ cands = ids (concat ranks')).
+    { intros k' cands Hk. unfold st1 in Hk. simpl cs_all in Hk. rewrite assoc_k_cons in Hk.
+      destruct (key_eqb k k') eqn:E; [|now apply HA].
+      apply key_eqb_eq in E. subst k'. injection Hk as <-. eauto. }
+    destruct ranks as [|g rest].
+    { injection H as <- <- _. split.
+      - split; [reflexivity|]. split; [exact HD|]. split; [exact HE|]. split; [exact HA1|].
+        intros k' h Hk. simpl cs_dict in Hk. destruct (HC _ _ Hk) as (rk & Hrk & Hall & Hch).
+        exists rk. split; [exact Hrk|]. split; [|exact Hch].
+        simpl cs_all. rewrite assoc_k_cons. rewrite key_neq; [exact Hall|]. intros ->. congruence.
+      - unfold Resolve.lookup. now rewrite Hm. }
+    set (ranks := g :: rest) in *.
+    set (st2 := write_chain ranks None k st1) in H.
+    pose proof (mro_nodup _ _ Hm) as Hnd.
+    assert (Hpar : NoDup (parents (chain_entries ranks None))) by (apply chain_entries_nodup; [exact Hnd|discriminate]).
+    assert (HD2 : forall q h, assoc_q q (cs_dict st2) = Some h -> fresh q = ORun h).
+    { intros q h Hq. destruct (write_chain_dict_src _ _ _ _ _ _ Hq) as [Hold|(p' & -> & Hin)]; [now apply HD|].
+      eapply entry_fresh; eauto. }
+    assert (HE2 : forall q g0, assoc_q q (cs_err st2) = Some g0 -> fresh q = OAmbig g0).
+    { intros q g0 Hq. destruct (write_chain_err_src _ _ _ _ _ _ Hq) as [Hold|(p' & -> & Hin)]; [now apply HE|].
+      eapply entry_fresh; eauto. }
+    assert (Hall2 : cs_all st2 = (k, ids (concat ranks)) :: cs_all st) by (unfold st2; now rewrite write_chain_all).
+    assert (Hinv2 : FInv st2).
+    { split; [unfold st2; now rewrite write_chain_ms|]. split; [exact HD2|]. split; [exact HE2|].
+      split; [rewrite Hall2; exact HA1|].
+      intros k' h Hk. destruct (key_eqb k k') eqn:E.
+      - apply key_eqb_eq in E. subst k'. exists ranks. split; [exact Hm|].
+        split; [rewrite Hall2, assoc_k_cons, key_eqb_refl; reflexivity|].
+        intros c o Hcn. pose proof (chain_next_entries _ None _ _ Hcn) as Hin.
+        pose proof (write_chain_in ranks None k st1 (Some c) o Hpar Hin) as Hw. fold st2 in Hw.
+        destruct o; try exact I; [exact Hw|exact (proj1 Hw)].
+      - assert (Hne : k <> k') by (intros ->; rewrite key_eqb_refl in E; discriminate).
+        destruct (write_chain_other ranks None k st1 None k' (or_introl Hne)) as [Hd _]. fold st2 in Hd.
+        rewrite Hd in Hk. simpl cs_dict in Hk. destruct (HC _ _ Hk) as (rk & Hrk & Hallk & Hch).
+        exists rk. split; [exact Hrk|]. split; [rewrite Hall2, assoc_k_cons, E; exact Hallk|].
+        intros c o Hcn. specialize (Hch c o Hcn).
+        destruct (write_chain_other ranks None k st1 (Some c) k' (or_introl Hne)) as [Hd' He']. fold st2 in Hd', He'.
+        destruct o; try exact I; [rewrite Hd'|rewrite He']; exact Hch. }
+    destruct (chain_entries_head g rest) as (tl & Htl & _). fold ranks in Htl.
+    assert (Hin0 : In (None, rank_outcome g) (chain_entries ranks None)) by (rewrite Htl; now left).
+    pose proof (write_chain_in ranks None k st1 None _ Hpar Hin0) as Hw. fold st2 in Hw.
+    assert (Hlk : lookup ms k = rank_outcome g) by (unfold Resolve.lookup; rewrite Hm; reflexivity).
+    destruct (rank_outcome_cases g) as [(c1 & Hg & Hro)|Hro]; rewrite Hro in Hw, Hlk.
+    - destruct (assoc_q (mkQ None k) (cs_err st2)) as [g0|] eqn:Eerr.
+      + apply HE2 in Eerr. rewrite fresh_plain in Eerr. congruence.
+      + rewrite Hw in H. injection H as <- <- _. split; [exact Hinv2|]. now rewrite Hlk.
+    - destruct Hw as [Hw _]. rewrite Hw in H. injection H as <- <- _. split; [exact Hinv2|]. now rewrite Hlk.
+  Qed.
+
+  Lemma get_plain_full st k st' out r :
+    FInv st -> get_plain st k = (st', out, r) -> FInv st' /\ out = lookup ms k.
+  Proof.
+    intros Hinv H. unfold Cache.get_plain in H.
+    destruct (assoc_q (mkQ None k) (cs_dict st)) as [h|] eqn:E.
+    - injection H as <- <- _. split; [exact Hinv|]. destruct Hinv as (_ & HD & _). symmetry. exact (HD _ _ E).
+    - eapply miss_plain_full; eauto.
+  Qed.
+
+  Lemma lookup_next_not_run c k : (forall h, lookup ms k <> ORun h) -> lookup_next ms c k = lookup ms k.
+  Proof.
+    unfold Resolve.lookup_next, Resolve.lookup. destruct (mro ms k) as [[|g rest]|e]; try reflexivity.
+    intros Hn. destruct (rank_outcome_cases g) as [(c1 & _ & Hro)|Hro]; rewrite Hro in *; [exfalso; eapply Hn; reflexivity|reflexivity].
+  Qed.
+
+  Theorem getitem_full st q st' out r :
+    FInv st -> getitem st q = (st', out, r) -> FInv st' /\ out = fresh q.
+  Proof.
+    intros Hinv H. destruct q as [[c|] k]; unfold Cache.getitem in H; simpl q_caller in H; simpl q_key in H.
+    2:{ eapply get_plain_full; eassumption. }
+    destruct (assoc_q (mkQ (Some c) k) (cs_dict st)) as [h|] eqn:Ehit.
+    { injection H as <- <- _. split; [exact Hinv|]. destruct Hinv as (_ & HD & _). symmetry. exact (HD _ _ Ehit). }
+    destruct (get_plain st k) as [[st1 o1] r1] eqn:Egp.
+    destruct (get_plain_full _ _ _ _ _ Hinv Egp) as [Hinv1 Ho1].
+    assert (Hfr : fresh (mkQ (Some c) k) = lookup_next ms c k) by reflexivity.
+    destruct o1 as [h| | g| | ];
+      try (injection H as <- <- _; split; [exact Hinv1|]; rewrite Hfr, lookup_next_not_run; [assumption|intros h0; congruence]).
+    pose proof (get_plain_stores _ _ _ _ _ _ _ _ _ Egp) as Hst.
+    destruct Hinv1 as (Hms1 & HD1 & HE1 & HA1 & HC1).
+    destruct (HC1 _ _ Hst) as (ranks & Hm & Hall & Hch). rewrite Hall in H.
+    assert (Hlk : rank_outcome (hd [] ranks) = ORun h /\ ranks <> []).
+    { unfold Resolve.lookup in Ho1. rewrite Hm in Ho1. destruct ranks as [|g rest]; [discriminate|]. simpl. split; [congruence|discriminate]. }
+    assert (Hfr2 : fresh (mkQ (Some c) k) =
+       if negb (memb c (ids (concat ranks))) then ORun h else match chain_next ranks c with Some o => o | None => ONoMethod end).
+    { rewrite Hfr. unfold Resolve.lookup_next. rewrite Hm. destruct ranks as [|g rest]; [destruct Hlk as [_ Hx]; congruence|].
+      destruct Hlk as [Hro _]. simpl hd in Hro. rewrite Hro. rewrite existsb_groups_memb. reflexivity. }
+    assert (Hinv1 : FInv st1) by (repeat split; assumption).
+    destruct (negb (memb c (ids (concat ranks)))) eqn:Emem.
+    { injection H as <- <- _. split; [exact Hinv1|]. now rewrite Hfr2. }
+    destruct (chain_next ranks c) as [o|] eqn:Ecn.
+    - specialize (Hch c o Ecn). destruct (chain_next_shape _ _ _ Ecn) as [[h' ->]|[g ->]].
+      + destruct (assoc_q (mkQ (Some c) k) (cs_err st1)) as [g0|] eqn:Eerr.
+        * apply HE1 in Eerr. congruence.
+        * rewrite Hch in H. injection H as <- <- _. split; [exact Hinv1|]. now rewrite Hfr2.
+      + rewrite Hch in H. injection H as <- <- _. split; [exact Hinv1|]. now rewrite Hfr2.
+    - destruct (assoc_q (mkQ (Some c) k) (cs_err st1)) as [g0|] eqn:Eerr; [apply HE1 in Eerr; congruence|].
+      destruct (assoc_q (mkQ (Some c) k) (cs_dict st1)) as [h2|] eqn:Ed; [apply HD1 in Ed; congruence|].
+      injection H as <- <- _. split; [exact Hinv1|]. now rewrite Hfr2.
+  Qed.
+
+  (* any finite sequence of accesses: every answer is the brand-new table's answer *)
+  Fixpoint gets (qs : list qkey) : list cop := match qs with [] => [] | q :: r => CGet q :: gets r end.
+
+  Theorem gets_full : forall qs st st' outs,
+    FInv st -> crun sub hasm chk sub_fresh st (gets qs) = (st', outs) ->
+    FInv st' /\ map (fun x => match x with Some (o, _) => Some o | None => None end) outs = map (fun q => Some (fresh q)) qs.
+  Proof.
+    induction qs as [|q r IH]; intros st st' outs Hinv H; simpl in H.
+    - injection H as <- <-. split; [exact Hinv|reflexivity].
+    - destruct (getitem st q) as [[st1 o] rr] eqn:Eg.
+      destruct (crun sub hasm chk sub_fresh st1 (gets r)) as [st2 xs] eqn:Er.
+      injection H as <- <-. destruct (getitem_full _ _ _ _ _ Hinv Eg) as [Hinv1 ->].
+      destruct (IH _ _ _ Hinv1 Er) as [Hinv2 Hxs]. split; [exact Hinv2|]. simpl. now rewrite Hxs.
+  Qed.
+End Full.
+
+(* ---- histories that also register: the table is emptied at each registration, so the same invariant restarts ---- *)
+Lemma NoDup_app_l {X} (a b : list X) : NoDup (a ++ b) -> NoDup a.
+Proof.
+  induction a as [|x a IH]; simpl; intros H; [constructor|]. inversion H; subst.
+  constructor; [|auto]. intros Hin. apply H2. apply in_app_iff. now left.
+Qed.
+
+Fixpoint regs (ops : list cop) : list meth :=
+  match ops with [] => [] | CReg m :: r => m :: regs r | _ :: r => regs r end.
+
+Section History.
+  Variable sub : nat -> nat -> bool.
+  Variable hasm : nat -> nat -> bool.
+  Variable chk : nat -> nat -> bool.
+  Variable sub_fresh : nat -> bool.
+
+  Fixpoint expected (ms : list meth) (ops : list cop) : list (option outcome) :=
+    match ops with
+    | [] => []
+    | CGet q :: r => Some (fresh sub hasm chk sub_fresh ms q) :: expected ms r
+    | CReg m :: r => None :: expected (ms ++ [m]) r
+    end.
+
+  Definition outs_of (xs : list (option (outcome * bool))) : list (option outcome) :=
+    map (fun x => match x with Some (o, _) => Some o | None => None end) xs.
+
+  Lemma crun_full : forall ops ms st st' outs,
+    NoDup (map m_id (ms ++ regs ops)) -> FInv sub hasm chk sub_fresh ms st ->
+    crun sub hasm chk sub_fresh st ops = (st', outs) -> outs_of outs = expected ms ops.
+  Proof.
+    induction ops as [|o r IH]; intros ms st st' outs Hnd Hinv H; simpl in H.
+    - injection H as _ <-. reflexivity.
+    - destruct o as [q|m].
+      + simpl in H. destruct (getitem sub hasm chk sub_fresh st q) as [[st1 o1] rr] eqn:Eg.
+        destruct (crun sub hasm chk sub_fresh st1 r) as [st2 xs] eqn:Er. injection H as _ <-.
+        assert (Hnd0 : NoDup (map m_id ms)).
+        { rewrite map_app in Hnd. eapply NoDup_app_l; exact Hnd. }
+        destruct (getitem_full _ _ _ _ _ Hnd0 _ _ _ _ _ Hinv Eg) as [Hinv1 ->].
+        simpl. f_equal. eapply IH; eauto.
+      + simpl in H. destruct (crun sub hasm chk sub_fresh (cregister st m) r) as [st2 xs] eqn:Er. injection H as _ <-.
+        simpl. f_equal. eapply IH; [| |exact Er].
+        * simpl in Hnd. rewrite <- app_assoc. exact Hnd.
+        * destruct Hinv as (Hms & _). unfold cregister. rewrite Hms. apply FInv_init.
+  Qed.
+
+  Theorem history_free ms ops st' outs :
+    NoDup (map m_id (ms ++ regs ops)) ->
+    crun sub hasm chk sub_fresh (cinit ms) ops = (st', outs) -> outs_of outs = expected ms ops.
+  Proof. intros Hnd. apply crun_full; [exact Hnd|apply FInv_init]. Qed.
+End History.
